@@ -130,9 +130,48 @@ class Inliner:
         for node in self.tree.body:
             visit(node, None, None, self.modname + ":")
 
+    def _external_bases(self, clsname: str, seen=None) -> List[str]:
+        """dotted names of the bases imported from outside the package"""
+        seen = seen or set()
+        if clsname in seen:
+            return []
+        seen.add(clsname)
+        if not hasattr(self, "_imports"):
+            self._imports: Dict[str, str] = {}
+            for n in ast.walk(self.tree):
+                if isinstance(n, ast.ImportFrom) and n.level == 0 and n.module:
+                    for a in n.names:
+                        self._imports[a.asname or a.name] = f"{n.module}.{a.name}"
+        out = []
+        for b in self.class_bases.get(clsname, []):
+            if b in self.class_bases:
+                out += self._external_bases(b, seen)
+            elif b in self._imports and not self._imports[b].startswith("mlinsights"):
+                out.append(self._imports[b])
+        return out
+
+    def _overrides_external(self, d: _Def) -> bool:
+        """a method whose name an external base class also defines is part of that
+        class's protocol (the base may call it): never looked through nor dropped"""
+        if d.cls is None or d.kind not in ("method", "static", "class"):
+            return False
+        try:
+            from . import extsrc
+        except Exception:
+            return False
+        for b in self._external_bases(d.cls.name):
+            try:
+                if extsrc.find_method(b, d.node.name) is not None:
+                    return True
+            except Exception:
+                continue
+        return False
+
     def is_new(self, d: _Def) -> bool:
         name = d.node.name
         if d.qualname in self.known:
+            return False
+        if self._overrides_external(d):
             return False
         if d.kind == "nested":
             # a closure of a helper that is itself looked through is judged where it lands
